@@ -32,7 +32,7 @@ def cases(seed, tier):
     rng = gen.rng_for(ID, seed)
     specs = {"sigS": {"kind": "signal", "initial": 0}, "d1": {"kind": "det", "base": 1.0, "coef": {}, "trigger_delay": 0.05}}
     S = gen.SiteCounter()
-    sleep = rng.choice([0, 0.5, 2.0])
+    sleep = rng.choice([0, 0.5, 2.0, round(rng.uniform(0.0, 2.0), 2)])
     case = {
         "prop": ID,
         "seed": seed,
@@ -56,13 +56,13 @@ def cases(seed, tier):
         if mode.startswith("pretrip"):
             case["script"].append({"do": "put", "signal": "sigS", "value": 1})
             if mode == "pretrip-release":
-                case["script"].append({"do": "put_later", "signal": "sigS", "value": 0, "delay": rng.choice([0.0, 0.3, 3.0])})
+                case["script"].append({"do": "put_later", "signal": "sigS", "value": 0, "delay": rng.choice([0.0, 0.3, 3.0, round(rng.uniform(0.0, 3.4), 3)])})
             else:
-                step["inject"].append({"id": "rm", "at": {"time": rng.choice([0.0, 0.2, 1.5])}, "do": "remove_suspender", "args": {"sus": "s0"}})
+                step["inject"].append({"id": "rm", "at": {"time": rng.choice([0.0, 0.2, 1.5, round(rng.uniform(0.0, 3.0), 3)])}, "do": "remove_suspender", "args": {"sus": "s0"}})
                 removed = True
         elif mode == "trip-during-remove":
-            step["inject"].append({"id": "tr", "at": {"time": rng.choice([0.05, 0.3])}, "do": "put", "args": {"signal": "sigS", "value": 1}})
-            step["inject"].append({"id": "rm", "at": {"time": rng.choice([0.4, 1.0, 2.5])}, "do": "remove_suspender", "args": {"sus": "s0"}})
+            step["inject"].append({"id": "tr", "at": {"time": rng.choice([0.05, 0.3, round(rng.uniform(0.0, 0.39), 3)])}, "do": "put", "args": {"signal": "sigS", "value": 1}})
+            step["inject"].append({"id": "rm", "at": {"time": rng.choice([0.4, 1.0, 2.5, round(rng.uniform(0.4, 3.0), 3)])}, "do": "remove_suspender", "args": {"sus": "s0"}})
             removed = True
         elif mode == "values-after-removal":
             step["inject"].append({"id": "v1", "at": {"time": 0.1}, "do": "put", "args": {"signal": "sigS", "value": 1}})
@@ -177,3 +177,15 @@ def check(res):
 
 def nontrivial(res):
     return True
+
+
+def trace_key(res):
+    """Distinct schedules: the script's steps with their virtual times (the message trace alone is the same plan)."""
+    import hashlib
+
+    c = res.case
+    sk = []
+    for st in c["script"]:
+        sk.append((st["do"], st.get("value"), st.get("delay"), tuple((i["do"], i["at"].get("time")) for i in st.get("inject", []) or [])))
+    s_ = repr((c["suspenders"]["s0"]["kwargs"].get("sleep"), c["sim"].get("handle_cost"), sk))
+    return hashlib.sha256(s_.encode()).hexdigest()[:20]
